@@ -59,7 +59,7 @@ def run_worker(prop, fname, cond_to, path_to):
     cmd = [VENV_PY, '-m', 'vrt.worker', 'harness.%s' % prop, fname, str(cond_to), str(path_to)]
     try:
         p = subprocess.run(cmd, env=env_for(), cwd=HERE, capture_output=True, text=True,
-                           timeout=cond_to * 2 + 120)
+                           timeout=cond_to * 4 + 600)
         out, err = p.stdout, p.stderr
     except subprocess.TimeoutExpired as exc:
         return dict(function=fname, verdict='unknown', messages=[dict(state='wall_timeout', message=str(exc))],
